@@ -382,7 +382,7 @@ func (o *baseObject) checkDeleteProp(name unistring.String, prop *valueProperty,
 	if !prop.configurable {
 		if throw {
 			r := o.val.runtime
-			panic(r.NewTypeError("Cannot delete property '%s' of %s", name, r.objectproto_toString(FunctionCall{This: o.val})))
+			panic(r.NewTypeError("Cannot delete property '%s' of an object", name))
 		}
 		return false
 	}
@@ -454,7 +454,7 @@ func (o *baseObject) setProto(proto *Object, throw bool) bool {
 		return true
 	}
 	if !o.extensible {
-		o.val.runtime.typeErrorResult(throw, "%s is not extensible", o.val)
+		o.val.runtime.typeErrorResult(throw, "Cannot set prototype, object is not extensible")
 		return false
 	}
 	for p := proto; p != nil; p = p.self.proto() {
